@@ -26,6 +26,10 @@ type Solver struct {
 	cmd      *exec.Cmd
 	in       io.WriteCloser
 	out      *bufio.Reader
+	lines    chan string
+	argv     []string
+	Restarts int
+	Dead     bool
 	Em       *Emitter
 	Log      io.Writer // optional transcript
 	Queries  int
@@ -44,29 +48,70 @@ func NewSolver(timeoutMs int, argv ...string) (*Solver, error) {
 	if len(argv) == 0 {
 		argv = []string{"z3", "-in"}
 	}
-	cmd := exec.Command(argv[0], argv[1:]...)
-	in, err := cmd.StdinPipe()
-	if err != nil {
-		return nil, err
-	}
-	outp, err := cmd.StdoutPipe()
-	if err != nil {
-		return nil, err
-	}
-	cmd.Stderr = os.Stderr
-	if err := cmd.Start(); err != nil {
-		return nil, err
-	}
-	s := &Solver{cmd: cmd, in: in, out: bufio.NewReaderSize(outp, 1<<16), Name: argv[0], TimeoutMs: timeoutMs}
+	s := &Solver{Name: argv[0], TimeoutMs: timeoutMs, argv: argv}
 	s.Em = NewEmitter(s.send)
-	if strings.Contains(argv[0], "z3") {
-		s.send(fmt.Sprintf("(set-option :timeout %d)", timeoutMs))
+	if err := s.start(); err != nil {
+		return nil, err
 	}
-	s.send("(set-option :produce-models true)")
 	return s, nil
 }
 
+func (s *Solver) start() error {
+	cmd := exec.Command(s.argv[0], s.argv[1:]...)
+	in, err := cmd.StdinPipe()
+	if err != nil {
+		return err
+	}
+	outp, err := cmd.StdoutPipe()
+	if err != nil {
+		return err
+	}
+	cmd.Stderr = os.Stderr
+	if err := cmd.Start(); err != nil {
+		return err
+	}
+	s.cmd, s.in = cmd, in
+	s.out = bufio.NewReaderSize(outp, 1<<16)
+	lines := make(chan string, 64)
+	s.lines = lines
+	rd := s.out
+	go func() {
+		for {
+			l, err := rd.ReadString('\n')
+			if err != nil {
+				lines <- "(error \"solver died: " + err.Error() + "\")"
+				close(lines)
+				return
+			}
+			l = strings.TrimSpace(l)
+			if l != "" {
+				lines <- l
+			}
+		}
+	}()
+	s.depth = 0
+	s.Dead = false
+	s.Em.Reset()
+	if strings.Contains(s.argv[0], "z3") {
+		s.send(fmt.Sprintf("(set-option :timeout %d)", s.TimeoutMs))
+	}
+	s.send("(set-option :produce-models true)")
+	return nil
+}
+
+// Restart kills the solver process and starts a fresh one (all assertions lost).
+func (s *Solver) Restart() {
+	s.in.Close()
+	s.cmd.Process.Kill()
+	go s.cmd.Wait()
+	s.Restarts++
+	s.start()
+}
+
 func (s *Solver) send(line string) {
+	if s.Dead {
+		return
+	}
 	if s.Log != nil {
 		fmt.Fprintln(s.Log, line)
 	}
@@ -85,10 +130,22 @@ func (s *Solver) Close() {
 	}
 }
 
-func (s *Solver) Push() { s.send("(push 1)"); s.depth++ }
+func (s *Solver) Push() {
+	if s.Dead {
+		s.Restart()
+	}
+	s.send("(push 1)")
+	s.depth++
+}
 func (s *Solver) Pop() {
-	s.send("(pop 1)")
-	s.depth--
+	if s.Dead {
+		s.Restart()
+		return
+	}
+	if s.depth > 0 {
+		s.send("(pop 1)")
+		s.depth--
+	}
 	s.Em.Reset()
 }
 
@@ -101,16 +158,19 @@ func (s *Solver) Assert(t *Term) {
 }
 
 func (s *Solver) readLine() string {
-	for {
-		l, err := s.out.ReadString('\n')
-		if err != nil {
-			return "(error \"solver died: " + err.Error() + "\")"
-		}
-		l = strings.TrimSpace(l)
-		if l == "" {
-			continue
+	if s.Dead {
+		return "(error \"solver died: watchdog\")"
+	}
+	select {
+	case l, ok := <-s.lines:
+		if !ok {
+			s.Dead = true
+			return "(error \"solver died: eof\")"
 		}
 		return l
+	case <-time.After(time.Duration(s.TimeoutMs)*time.Millisecond + 10*time.Second):
+		s.Dead = true
+		return "(error \"solver died: watchdog\")"
 	}
 }
 
